@@ -81,6 +81,9 @@ structure Token where
   lineStart : Int := 0
   from_ : Int := 0
   to : Int := 0
+  /-- the line the token begins on and where that line starts (≠ `line` / `lineStart` for a token that spans lines) -/
+  sline : Int := 0
+  slineStart : Int := 0
   /-- true byte offsets of the token in the source (ghost fields: not present in the Go code) -/
   offFrom : Nat := 0
   offTo : Nat := 0
@@ -102,6 +105,8 @@ structure LS where
   line : Int := 1
   lineStart : Int := 0
   tokStart : Int := 0
+  tokSLine : Int := 0
+  tokSLineStart : Int := 0
   cur : Int := 0
   pre : Token := {}
   now : Token := {}
@@ -143,10 +148,11 @@ def utf8Go : Nat → Bytes → Bool
 
 def isUtf8 (s : Bytes) : Bool := utf8Go 0 s
 
-/-- `utf8.RuneCountInString` on bytes: every byte that is not a continuation byte of a well-formed
-    sequence starts a rune; malformed bytes count one each.  (Used only on `isUtf8` strings, where it
-    is the number of non-continuation bytes.) -/
-def runeCount (bs : Bytes) : Nat := (bs.filter fun b => b &&& 0xC0 != 0x80).length
+/-- `utf16Len` on bytes (the lexer's column unit since the repair of finding C04-K3): every byte that is not a
+    continuation byte starts a character, and the lead byte of a four-byte sequence (a character outside the
+    basic multilingual plane) counts twice.  (Used only on `isUtf8` strings.) -/
+def runeCount (bs : Bytes) : Nat :=
+  (bs.filter fun b => b &&& 0xC0 != 0x80).length + (bs.filter fun b => b >= 0xF0).length
 
 /-- rune count of `ConvertStrToUtf8 s`: exact when `isUtf8 s` (identity), else looked up in the table
     measured by the harness from the real GBK decoder -/
@@ -169,30 +175,30 @@ def LS.err (l : LS) (loc : Loc) (msg : String) : LS := { l with errs := l.errs +
 def LS.setNow (l : LS) (k : TK) (s : Bytes) : LS :=
   { l with pre := l.now,
            now := { valid := true, line := l.line, lineStart := l.lineStart, from_ := l.tokStart,
+                    sline := l.tokSLine, slineStart := l.tokSLineStart,
                     to := l.cur, kind := k, str := s, offFrom := l.tokOff, offTo := l.off } }
 
 /-- the EOF token the look-ahead produces when the chunk is empty -/
 def LS.eofAhead (l : LS) : Token :=
   { valid := true, line := l.line, lineStart := l.lineStart, from_ := l.cur, to := l.cur, kind := .eof,
-    str := bytesOfString "EOF" }
+    sline := l.line, slineStart := l.lineStart, str := bytesOfString "EOF" }
+
+/-- `tokenLoc`: a token that spans lines begins on the line and at the column it began (repair: it used to be
+    placed right behind the token before it) -/
+def tokenLoc (t : Token) : Loc :=
+  if t.lineStart > t.from_ then ⟨t.sline, t.from_ - t.slineStart, t.line, t.to - t.lineStart⟩
+  else ⟨t.line, t.from_ - t.lineStart, t.line, t.to - t.lineStart⟩
 
 /-- `GetHeardTokenLoc` for a given look-ahead token -/
-def heardLoc (now ahead : Token) : Loc :=
-  if ahead.lineStart > ahead.from_ then
-    ⟨now.line, now.to - now.lineStart + 1, ahead.line, ahead.to - ahead.lineStart⟩
-  else ⟨ahead.line, ahead.from_ - ahead.lineStart, ahead.line, ahead.to - ahead.lineStart⟩
+def heardLoc (_now ahead : Token) : Loc := tokenLoc ahead
 
 /-- `GetNowTokenLoc` given the following token (only consulted when `now` is invalid) -/
-def nowLoc (pre now : Token) (ahead : Token) : Loc :=
-  if !now.valid then heardLoc now ahead
-  else if now.lineStart > now.from_ then
-    ⟨pre.line, pre.to - pre.lineStart + 1, now.line, now.to - now.lineStart⟩
-  else ⟨now.line, now.from_ - now.lineStart, now.line, now.to - now.lineStart⟩
+def nowLoc (_pre now : Token) (ahead : Token) : Loc :=
+  if !now.valid then heardLoc now ahead else tokenLoc now
 
 /-- `GetPreTokenLoc` -/
 def preLoc (pre : Token) : Loc :=
-  if !pre.valid then ⟨1, 0, 1, 0⟩
-  else ⟨pre.line, pre.from_ - pre.lineStart, pre.line, pre.to - pre.lineStart⟩
+  if !pre.valid then ⟨1, 0, 1, 0⟩ else tokenLoc pre
 
 /-- `GetHeardTokenLoc` called from inside the lexer: only reachable with an empty chunk, where the
     look-ahead is the EOF token (see the header) -/
@@ -233,11 +239,11 @@ def countNl (s : Bytes) : Nat := (s.filter (· == 10)).length
 def lastLineLen (s : Bytes) : Nat := (s.reverse.takeWhile (· != 10)).length
 
 /-- `scanLongString`: returns the state and the string value -/
-def LS.scanLongString (l : LS) : LS × Bytes :=
+def LS.scanLongString (l : LS) (conv : List (Bytes × Nat)) : LS × Bytes :=
   let (lb, count) := l.matchLong
   if lb.isEmpty then
     let l := if l.chunk.length < 2 then { l with panic := true } else l
-    let l := l.err ⟨l.line, l.cur, l.line, l.cur + count⟩ "invalid long string delimiter"
+    let l := l.err ⟨l.line, l.cur - l.lineStart, l.line, l.cur - l.lineStart + count⟩ "invalid long string delimiter"
     (l.next (min count l.chunk.length), [])
   else
     let lbEnd := lb.map fun c => if c == 91 then (93 : UInt8) else c
@@ -249,24 +255,33 @@ def LS.scanLongString (l : LS) : LS × Bytes :=
           { l with line := l.line + countNl str, lineStart := l.cur - lastLineLen str }
         else l
       -- the look-ahead taken for the error location re-enters NextTokenStruct, which moves tokenStartPos
-      ({ (l.err l.heardLocAtEnd "missing `]]`") with tokStart := l.cur }, [])
+      ({ (l.err l.heardLocAtEnd "missing `]]`") with tokStart := l.cur, tokSLine := l.line, tokSLineStart := l.lineStart }, [])
     | some idx =>
       let str := normNewlines ((l.chunk.take idx).drop lb.length)
       let l := l.next (idx + lbEnd.length)
-      let l := { l with line := l.line + countNl str, lineStart := l.cur }
+      -- the last line of the string counts in characters (repair of finding C04-K2: the line of the closing
+      -- bracket starts behind the last line break inside the string, or where it started before)
+      let lastLine := (str.reverse.takeWhile (· != 10)).reverse
+      let (chars, l) := match convCount conv lastLine with
+        | some n => (n, l)
+        | none => (runeCount lastLine, { l with convMissing := true })
+      let l := { l with cur := l.cur - ((lastLine.length : Int) - (chars : Int)) }
+      let l := if countNl str > 0 then
+          { l with line := l.line + countNl str, lineStart := l.cur - (lbEnd.length : Int) - (chars : Int) }
+        else l
       (l, match str with | 10 :: r => r | s => s)
 
 /-! ### comments and white space -/
 
 /-- `skipComment` (content is not kept here; the comment map is modelled in M-hov) -/
-def LS.skipComment (l : LS) : LS :=
+def LS.skipComment (l : LS) (conv : List (Bytes × Nat)) : LS :=
   let l := l.next 2
   let long := l.test "[" && !(l.matchLong).1.isEmpty
-  if long then (l.scanLongString).1
+  if long then (l.scanLongString conv).1
   else l.next (l.chunk.takeWhile (fun c => !isNewLine c)).length
 
 /-- `skipWhiteSpaces`; fuel = remaining bytes + 1 (every iteration but the last consumes ≥ 1 byte) -/
-def skipWs : Nat → LS → LS
+def skipWs (conv : List (Bytes × Nat)) : Nat → LS → LS
   | 0, l => l
   | fuel + 1, l =>
     match l.chunk with
@@ -277,12 +292,12 @@ def skipWs : Nat → LS → LS
         | [] => false
       if wrap then
         let l := l.next 2
-        skipWs fuel { l with line := l.line + 1, lineStart := l.cur }
+        skipWs conv fuel { l with line := l.line + 1, lineStart := l.cur }
       else if isNewLine c then
         let l := l.next 1
-        skipWs fuel { l with line := l.line + 1, lineStart := l.cur }
-      else if isWhiteSpace c then skipWs fuel (l.next 1)
-      else if l.test "--" then skipWs fuel l.skipComment
+        skipWs conv fuel { l with line := l.line + 1, lineStart := l.cur }
+      else if isWhiteSpace c then skipWs conv fuel (l.next 1)
+      else if l.test "--" then skipWs conv fuel (l.skipComment conv)
       else l
 
 /-! ### identifiers and numbers -/
@@ -440,7 +455,7 @@ def LS.scanShortString (l : LS) (conv : List (Bytes × Nat)) : LS × Bytes :=
       let l := s.l
       if st >= ch.length then
         let l := l.next s.i
-        ({ (l.err l.heardLocAtEnd "unfinished string") with tokStart := l.cur }, [])
+        ({ (l.err l.heardLocAtEnd "unfinished string") with tokStart := l.cur, tokSLine := l.line, tokSLineStart := l.lineStart }, [])
       else
         let str := str ++ (ch.drop st).take (s.i - 1 - st)
         -- the column advances by the converted SOURCE text between the quotes (not by the string value)
@@ -464,8 +479,8 @@ def LS.emit (l : LS) (n : Nat) (k : TK) (s : String) : LS := (l.next n).setNow k
 
 /-- `NextTokenStruct` when no look-ahead token is buffered: scans one token -/
 def LS.scanToken (l : LS) (conv : List (Bytes × Nat)) : LS :=
-  let l := skipWs (l.chunk.length + 1) l
-  let l := { l with tokStart := l.cur, tokOff := l.off }
+  let l := skipWs conv (l.chunk.length + 1) l
+  let l := { l with tokStart := l.cur, tokSLine := l.line, tokSLineStart := l.lineStart, tokOff := l.off }
   match l.chunk with
   | [] => l.setNow .eof (bytesOfString "EOF")
   | c :: r =>
@@ -509,7 +524,7 @@ def LS.scanToken (l : LS) (conv : List (Bytes × Nat)) : LS :=
       else numberOrRest l
     else if c == 91 then
       if l.test "[[" || l.test "[=" then
-        let (l, t) := l.scanLongString
+        let (l, t) := l.scanLongString conv
         l.setNow .string t
       else l.emit 1 .lbrack "["
     else if c == 39 || c == 34 then
